@@ -166,7 +166,7 @@ def main() -> int:
             # mechanisms recognisable from the offending line (each a listed finding with its own witness)
             if "/models/" in rel:
                 mech_ = None
-                if code == "assignment" and re.search(r"= (self\.\w+\.isoformat\(\)\.encode\(\)|str\(self\.\w+\)(\.encode\(\))?)$", src_line) and "tuple[None, bytes, str]" in msg:
+                if code == "assignment" and re.search(r"= (self\.\w+\.isoformat\(\)\.encode\(\)|str\(self\.\w+\)(\.encode\(\))?)$", src_line) and "bytes" in msg:
                     mech_ = "multipart_union_member_not_a_tuple"
                 elif code == "comparison-overlap" and src_line.endswith("is not UNSET:") and pkg in capture_pkgs:
                     mech_ = "derived_local_captures_property"
@@ -190,7 +190,18 @@ def main() -> int:
             if "/api/" in rel and re.search(r"\b_(json|data|files|content)_body\b", src_line) and code in ("attr-defined", "arg-type", "assignment", "union-attr", "index", "call-overload", "no-redef"):
                 vd.violation("mypy:multi_body_destination_variable_reused", f"{label}: {rel}:{ln}: {msg} | {src_line}", {"doc": j["doc"] if j else None, "cfg": j.get("cfg") if j else None, "mypy": line})
                 continue
-            vd.violation(f"mypy:{code}:{artefact_kind(rel.split('/', 1)[1] if '/' in rel else rel)}", f"{label}: {rel}:{ln}: {msg} | {src_line}", {"doc": j["doc"] if j else None, "cfg": j.get("cfg") if j else None, "mypy": line})
+            kind_ = artefact_kind(rel.split('/', 1)[1] if '/' in rel else rel)
+            mech2 = None
+            if code == "assignment" and kind_ == "endpoint" and re.search(r"^cookies\[", src_line):
+                mech2 = "cookies_dict_value_type_inferred_from_first_parameter"
+            elif code == "union-attr" and kind_ == "endpoint" and re.search(r"_item(_data)?\.(to_dict|isoformat)\(\)", src_line) and "has no attribute" in msg:
+                mech2 = "list_body_union_item_transform"
+            elif code == "valid-type" and kind_ == "model" and "Literal[" in src_line + msg:
+                mech2 = "float_const_literal"
+            elif code == "redundant-cast" and kind_ == "model" and src_line.startswith("return cast("):
+                mech2 = "literal_enum_redundant_cast"
+            key_ = f"mypy:{mech2}" if mech2 else f"mypy:{code}:{kind_}"
+            vd.violation(key_, f"{label}: {rel}:{ln}: {msg} | {src_line}", {"doc": j["doc"] if j else None, "cfg": j.get("cfg") if j else None, "mypy": line})
     ev.count("packages_type_checked", len(pkgs))
     ev.count("mypy_errors", n_err)
     ev.sample({"packages": pkgs[:5], "mypy_errors": n_err, "flags": ["disallow_any_generics", "disallow_untyped_defs", "warn_redundant_casts", "strict_equality"]})
